@@ -127,6 +127,11 @@ TYPES = {
     'KeyMaxLt': [('key_max_lt', '', [('key', BOOL), ('max_end_lt', U(64))])],
     'Counters': [('counters', '', [('last_updated', U(32)), ('total', U(64)), ('cnt2048', U(64)), ('cnt65536', U(64))])],
     'CreatorStats': [('creator_info', h('4'), [('mc_blocks', t('Counters')), ('shard_blocks', t('Counters'))])],
+    # ---- block extra: InMsgDescr / OutMsgDescr / ShardAccountBlocks are HashmapAugE 256 dictionaries behind references
+    'BlockExtra': [('block_extra', h('4a33f6fd'), [('in_msg_descr', ref(('hmauge', 256, t('InMsg'), t('ImportFees')))),
+                                                 ('out_msg_descr', ref(('hmauge', 256, t('OutMsg'), CC))),
+                                                 ('account_blocks', ref(('hmauge', 256, t('AccountBlock'), CC))),
+                                                 ('rand_seed', B(32)), ('created_by', B(32)), ('custom', maybe(CELL))])],
 }
 
 
@@ -205,8 +210,138 @@ def enc(w, ty, v):
         w.bits(root.bits)
         for r in root.refs:
             w.ref(r)
+    elif k == 'hmauge':
+        # HashmapAugE width X Y behind a bit: v = {'items': {key: x}, 'extra_of': fn(x)->y, 'combine': fn(y,y)->y, 'empty_extra': y}
+        T.enc_hashmap_aug_e(w, v['items'], ty[1], lambda vw, x: enc(vw, ty[2], x), v['extra_of'], v['combine'], lambda xw, e: enc(xw, ty[3], e), v['empty_extra'])
     else:
         raise ValueError(ty)
+
+
+# ----------------------------------------------------------------------------------------------- decoder (mirror of enc, over tlbref.Rd)
+class _Node:
+    __slots__ = ('bits', 'refs')
+
+    def __init__(self, bits, refs):
+        self.bits, self.refs = bits, refs
+
+
+def _aug_decoder(yty):
+    def f(bits, pos, refs, ri):
+        rd = T.Rd(_Node(bits, refs))
+        rd.p, rd.r = pos, ri
+        x = dec(rd, yty)
+        return x, rd.p, rd.r
+    return f
+
+
+def dec(r, ty):
+    """value of type form `ty` read from reader r (tlbref.Rd); raises RefError when the bits do not denote a value of the type"""
+    k = ty[0]
+    if k == 'u':
+        return r.u(ty[1])
+    if k == 'i':
+        return r.i(ty[1])
+    if k == 'le':
+        v = r.u(ty[1].bit_length())
+        if v > ty[1]:
+            raise rc.RefError(f'#<= {ty[1]} field holds {v}')
+        return v
+    if k == 'const':
+        v = r.u(ty[1])
+        if v != ty[2]:
+            raise rc.RefError(f'constant field holds {v}, schema says {ty[2]}')
+        return v
+    if k == 'main16':
+        return r.u(16)
+    if k == 'bool':
+        return bool(r.u(1))
+    if k == 'bits':
+        return r.bytes(ty[1])
+    if k == 'grams':
+        return T.dec_var_uint(r, 16)
+    if k == 'varu':
+        return T.dec_var_uint(r, ty[1])
+    if k == 'cc':
+        return T.dec_currency_collection(r)
+    if k == 'addr':
+        return T.dec_msg_address(r)
+    if k == 'cell':
+        return r.ref()
+    if k == 'msg':
+        m, placement = T.dec_message(r.rest())
+        r.p, r.r = len(r.c.bits), len(r.c.refs)
+        return {'msg': m, 'placement': placement}
+    if k == 'maybe':
+        return dec(r, ty[1]) if r.u(1) else None
+    if k == 'ref':
+        if ty[1] == CELL:
+            return r.ref()
+        sub = T.Rd(r.ref())
+        v = dec(sub, ty[1])
+        if sub.left() != (0, 0):
+            raise rc.RefError(f'{sub.left()} bits/refs left in a referenced {ty[1][0]} {ty[1][1] if len(ty[1]) > 1 and isinstance(ty[1][1], str) else ""}')
+        return v
+    if k == 'seq':
+        return {f: dec(r, ft) for f, ft in ty[1]}
+    if k == 't':
+        ctors = TYPES[ty[1]]
+        for c in sorted(ctors, key=lambda c: -len(c[1])):
+            n = len(c[1])
+            if r.c.bits[r.p:r.p + n] == c[1]:
+                break
+        else:
+            raise rc.RefError(f'no constructor of {ty[1]} matches')
+        r.p += len(c[1])
+        v = {'_': c[0]}
+        for f, ft in c[2]:
+            x = dec(r, ft)
+            if f.startswith('_'):
+                v.update(x)
+            else:
+                v[f] = x
+        return v
+    if k == 'hme':
+        return T.dec_hashmap_e(r, ty[1], lambda vr: dec(vr, ty[2]))
+    if k in ('hm', 'hmaug'):
+        # the root node of the dictionary is inline and other fields may follow it: read its label (and, for a root leaf, extra and value) from
+        # r itself; the subtrees of a root fork are whole cells
+        width = ty[1]
+        aug = _aug_decoder(ty[3]) if k == 'hmaug' else None
+        label, used = dictref.read_label(r.c.bits[r.p:], width)
+        if len(label) > width:
+            raise rc.RefError('label longer than the key')
+        r.p += used
+        items, extras = {}, []
+        if len(label) == width:
+            if aug:
+                extras.append(dec(r, ty[3]))
+            items[int(label, 2) if label else 0] = dec(r, ty[2])
+        else:
+            rest = width - len(label) - 1
+            for bit in '01':
+                leaves, xs, pruned = dictref.decode(r.ref(), rest, aug)
+                extras.extend(xs or [])
+                for key, (bits, refs) in leaves.items():
+                    vr = T.Rd(rc.RC(bits, refs))
+                    items[int(label + bit + key, 2)] = dec(vr, ty[2])
+                    if vr.left() != (0, 0):
+                        raise rc.RefError('dictionary value has trailing data')
+            if aug:
+                extras.append(dec(r, ty[3]))
+        return items if k == 'hm' else {'items': items, 'extras': extras}
+    if k == 'hmauge':
+        if not r.u(1):
+            return {'items': {}, 'extras': [], 'root_extra': dec(r, ty[3])}
+        root = r.ref()
+        leaves, extras, pruned = dictref.decode(root, ty[1], _aug_decoder(ty[3]))
+        items = {}
+        for key, (bits, refs) in leaves.items():
+            vr = T.Rd(rc.RC(bits, refs))
+            items[int(key, 2)] = dec(vr, ty[2])
+            if vr.left() != (0, 0):
+                raise rc.RefError('dictionary value has trailing data')
+        return {'items': items, 'extras': extras, 'root_extra': dec(r, ty[3])}
+    raise ValueError(ty)
 
 
 def flatten(ty, v):
@@ -311,6 +446,8 @@ class G:
                     v.update(x)
                 else:
                     v[f] = x
+            if ty[1] == 'BlockExtra':
+                v['custom'] = None        # custom:(Maybe ^McBlockExtra): McBlockExtra is not transcribed, so only the absent form is generated
             if ty[1] == 'ValidatorSet':
                 n = r.choice([1, 2, 5, 40])
                 v['list'] = {i: self.value(t('ValidatorDescr'), depth + 1) for i in range(n)}
@@ -325,6 +462,15 @@ class G:
             items = {r.getrandbits(ty[1]): self.value(ty[2], depth + 1) for _ in range(n)}
             return {'items': items, 'extra_of': lambda x: {'grams': x['total_fees']['grams'], 'other': {}},
                     'combine': lambda a, b: {'grams': min(a['grams'] + b['grams'], (1 << 120) - 1), 'other': {}}}
+        if k == 'hmauge':
+            n = r.choice([0, 1, 2, 3])
+            items = {r.getrandbits(ty[1]): self.value(ty[2], depth + 1) for _ in range(n)}
+            # the augmentation values are not validated by any parser: any value of type Y will do, but the same one for the same leaf
+            memo = {}
+
+            def extra_of(x, _m=memo):
+                return _m.setdefault(id(x), self.value(ty[3], depth + 1))
+            return {'items': items, 'extra_of': extra_of, 'combine': lambda a, b: a, 'empty_extra': self.value(ty[3], depth + 1)}
         raise ValueError(ty)
 
 
@@ -363,6 +509,38 @@ def fitting_value(g, name, cname, tries=6):
     return None, None
 
 
+def _reencodable(ty, back, orig):
+    """decoded value with the augmentation functions of the original put back (they are not data)"""
+    k = ty[0]
+    if k in ('hmaug', 'hmauge') and isinstance(orig, dict):
+        out = dict(orig)
+        xs = {}
+        for key, x in back['items'].items():
+            xs[key] = _reencodable(ty[2], x, orig['items'][key])
+        out['items'] = xs
+        by_new = {id(xs[key]): orig['items'][key] for key in xs}
+        out['extra_of'] = lambda x, f=orig['extra_of'], m=by_new: f(m[id(x)])
+        return out
+    if k in ('maybe',):
+        return None if back is None else _reencodable(ty[1], back, orig)
+    if k == 'ref':
+        return _reencodable(ty[1], back, orig)
+    if k == 'seq':
+        return {f: _reencodable(ft, back[f], orig[f]) for f, ft in ty[1]}
+    if k == 't':
+        c = next(c for c in TYPES[ty[1]] if c[0] == back['_'])
+        out = {'_': back['_']}
+        for f, ft in c[2]:
+            if f.startswith('_'):
+                out.update(_reencodable(ft, back, orig))
+            else:
+                out[f] = _reencodable(ft, back[f], orig[f])
+        return out
+    if k in ('hme', 'hm'):
+        return {key: _reencodable(ty[2], x, orig[key]) for key, x in back.items()}
+    return back
+
+
 def selftest():
     import random
     rng = random.Random(11)
@@ -371,3 +549,9 @@ def selftest():
         for _ in range(3):
             v, w = fitting_value(g, name, cname)
             assert v is not None, (name, cname)
+            rd = T.Rd(w.cell())
+            back = dec(rd, t(name))
+            assert rd.left() == (0, 0), (name, cname, rd.left())
+            w2 = T.W()
+            enc(w2, t(name), _reencodable(t(name), back, v))
+            assert w2.cell().hash == w.cell().hash, (name, cname, 'decode/encode identity')
